@@ -624,6 +624,8 @@ def _km_wrapper(orig):
                             al, cr = along_cross(ex, ey, mxy, wd)
                             ref = km_oracle(P, sv, al, cr, res_)
                             scale = float(ref.max()) or 1.0
+                            if 0.0 < scale < 1e-290:
+                                scale = 2.3e-308   # a raster in the subnormal range carries no relative accuracy
                             half = max(abs(t) for t in dom)
                             d = np.abs(np.asarray(ffm, dtype=float) - ref)
                             d[np.abs(al) < 1e-9 * half] = 0
